@@ -1,10 +1,34 @@
 (* Executable glue for the C20 correspondence check: a [case] is one archive as the real
-   archive/tar + gzip presented it to consul's reader, with the stdlib answers the model
-   treats as external (JSON decode outcomes, the scanned SHA256SUMS lines, digests named by
-   their preimage) and the result consul's reader returned. *)
+   archive/tar + gzip presented it (a neutral member view: every member the tar reader yields),
+   with the stdlib answers the model treats as external (JSON decode outcomes, the scanned
+   SHA256SUMS lines and the scanner's error, digests named by their preimage), the view of the
+   intact archive it was derived from, and the result consul's reader returned.
+
+   Four verdicts per case, each with its own code so that none can hide behind another:
+     1  the model's [read_gz] on the view differs from what consul's reader returned;
+     2  glue failure: the model asked the harness tables a question they do not answer
+        (a JSON decode that was not recorded, or SHA256SUMS bytes other than the recorded ones) --
+        the totalised defaults of [dec_tab]/[parse_tab] were used;
+     4  the view is not within one [corrupt] step (plain tar: [corruptb]; gzip: [faultb]) of the
+        view of the intact archive: the theorems would not speak about this enumerated fault;
+     8  for an intact archive written by consul's writer: its view is not the model's
+        [write ord m s], or a Section hypothesis fails on it ([parse_print], [scan_print] on the
+        written lines);
+     16 for an intact archive: [dec_enc] fails on its metadata (decoding the encoding does not
+        give the metadata back). *)
 From Verif Require Import Base.Prelude Archive.Model.
 
+(* how consul's writer produced an intact archive, in the model's terms *)
+Record wcase := W {
+  w_ord : bool;          (* line order of SHA256SUMS *)
+  w_meta : N;            (* id of the metadata value handed to the writer *)
+  w_enc : bytes;         (* json.Encoder's output for it *)
+  w_state : bytes;       (* the payload *)
+  w_sums : bytes         (* fmt.Fprintf of the two lines in that order *)
+}.
+
 Record case := Case {
+  c_gz : bool;                                    (* fed through gzip (snapshot.Read / Verify) *)
   c_hdr : bool;                                   (* gzip header accepted (true for plain tar) *)
   c_members : list member;
   c_term : bool;
@@ -12,27 +36,88 @@ Record case := Case {
   c_dec : list (N * bytes * option N);            (* (current meta id, bytes) -> decoded meta id *)
   c_sums : bytes;                                 (* concatenated SHA256SUMS data the harness parsed *)
   c_lines : list (option (bytes * string));       (* its lines; digest = the bytes it is the hash of *)
+  c_scan : bool;                                  (* bufio.Scanner ended with an error on it *)
+  c_base : list member;                           (* view of the intact archive *)
+  c_write : option wcase;                         (* intact archives only *)
   c_expect : result (N * bytes)                   (* what the implementation returned *)
 }.
 
+(* a run of [n] equal bytes (case files compress long runs) *)
+Definition rep (n x : N) : bytes := N.iter n (cons x) [].
+
+Definition dec_find (tab : list (N * bytes * option N)) (cur : N) (d : bytes) :=
+  find (fun e => N.eqb (fst (fst e)) cur && bytes_eqb (snd (fst e)) d) tab.
+
 Definition dec_tab (tab : list (N * bytes * option N)) (cur : N) (d : bytes) : option N :=
-  match find (fun e => N.eqb (fst (fst e)) cur && bytes_eqb (snd (fst e)) d) tab with
+  match dec_find tab cur d with
   | Some e => snd e
-  | None => None
+  | None => None        (* totalised default: reported by [glue_ok], code 2 *)
   end.
 
 Definition parse_tab (sums : bytes) (lines : list (option (bytes * string))) (b : bytes) :=
-  if bytes_eqb b sums then lines else [None].
+  if bytes_eqb b sums then lines else [None].   (* default reported by [glue_ok] *)
 
 Definition run (c : case) : result (N * bytes) :=
   read_gz bytes_eqb (fun b => b) 0%N (dec_tab (c_dec c)) (parse_tab (c_sums c) (c_lines c))
+          (fun _ => c_scan c)
           (c_hdr c) (c_members c) (c_term c) (c_trailer c).
+
+(* every decode the model can ask for along the view is in the table *)
+Fixpoint dec_cover (tab : list (N * bytes * option N)) (cur : N) (ms : list member) : bool :=
+  match ms with
+  | [] => true
+  | mb :: r =>
+    if String.eqb (m_name mb) n_meta && m_intact mb then
+      match dec_find tab cur (m_data mb) with
+      | None => false
+      | Some e => match snd e with None => true | Some nw => dec_cover tab nw r end
+      end
+    else dec_cover tab cur r
+  end.
+
+Definition sums_of (ms : list member) : bytes :=
+  List.concat (map m_data (filter (fun mb => String.eqb (m_name mb) n_sums) ms)).
+
+Definition glue_ok (c : case) : bool :=
+  dec_cover (c_dec c) 0%N (c_members c) && bytes_eqb (sums_of (c_members c)) (c_sums c).
+
+Definition fault_ok (c : case) : bool :=
+  if c_gz c then faultb (c_base c) (c_hdr c) (c_members c) (c_term c) (c_trailer c)
+  else corruptb (c_base c) (c_members c) (c_term c).
+
+Definition line_eqb (a b : option (bytes * string)) : bool :=
+  option_eqb (fun x y => bytes_eqb (fst x) (fst y) && String.eqb (snd x) (snd y)) a b.
+
+(* the view of an intact archive is the model's [write] (digests named by preimage, the
+   metadata encoder and the line printer answered by the stdlib), it is its own base, and the
+   line codec round-trips on the written lines *)
+Definition writer_ok (c : case) : bool :=
+  match c_write c with
+  | None => true
+  | Some w =>
+    let enc := fun i : N => if N.eqb i (w_meta w) then w_enc w else [] in
+    let lines := sums_lines (fun b => b) enc (w_ord w) (w_meta w) (w_state w) in
+    let prt := fun l : list (bytes * string) =>
+                 if list_eqb (fun x y => line_eqb (Some x) (Some y)) l lines then w_sums w else [] in
+    mlist_eqb (c_members c) (write (fun b => b) enc prt (w_ord w) (w_meta w) (w_state w))
+    && mlist_eqb (c_base c) (c_members c)
+    && c_term c && c_hdr c && c_trailer c
+    && list_eqb line_eqb (parse_tab (c_sums c) (c_lines c) (w_sums w)) (map Some lines)
+    && negb (c_scan c)
+  end.
+
+Definition dec_enc_ok (c : case) : bool :=
+  match c_write c with
+  | None => true
+  | Some w => option_eqb N.eqb (dec_tab (c_dec c) 0%N (w_enc w)) (Some (w_meta w))
+  end.
 
 Definition rerr_code (e : rerr) : N :=
   match e with
   | EGzipHeader => 1 | EFraming => 2 | EReadMeta => 3 | EDecodeMeta => 4 | EReadState => 5
   | EReadSums => 6 | EUnexpected => 7 | ESumsParse => 8 | EListMissing => 9
   | EHashMismatch => 10 | EFileMissing => 11 | EGzipTrailer => 12 | ENotInArchive => 13
+  | ESumsScan => 14
   end%N.
 
 Definition result_eqb (a b : result (N * bytes)) : bool :=
@@ -42,5 +127,21 @@ Definition result_eqb (a b : result (N * bytes)) : bool :=
   | _, _ => false
   end.
 
-Definition check (c : case) : bool := result_eqb (run c) (c_expect c).
-Definition mismatches (cs : list case) : list N := failing check cs.
+Definition verdict (c : case) : N :=
+  ((if result_eqb (run c) (c_expect c) then 0 else 1)
+   + (if glue_ok c then 0 else 2)
+   + (if fault_ok c then 0 else 4)
+   + (if writer_ok c then 0 else 8)
+   + (if dec_enc_ok c then 0 else 16))%N.
+
+Definition check (c : case) : bool := N.eqb (verdict c) 0.
+
+(* [32 * index + verdict] for every case whose verdict is not 0 *)
+Fixpoint verdicts_from (n : N) (cs : list case) : list N :=
+  match cs with
+  | [] => []
+  | c :: r =>
+    let v := verdict c in
+    if N.eqb v 0 then verdicts_from (N.succ n) r else (32 * n + v)%N :: verdicts_from (N.succ n) r
+  end.
+Definition mismatches (cs : list case) : list N := verdicts_from 0%N cs.
